@@ -31,7 +31,11 @@ struct TTEntry
     Move move;
 };
 
+#if defined(CHESSPLUSPLUS_VERIF) && defined(CHESSPLUSPLUS_VERIF_TT_SIZE)
+using TTable = HashMap<uint64_t, TTEntry, CHESSPLUSPLUS_VERIF_TT_SIZE>;
+#else
 using TTable = HashMap<uint64_t, TTEntry, 4 * 1024 * 1024>;
+#endif
 
 }  // namespace tt
 }  // namespace engine
